@@ -81,6 +81,90 @@ def _lst(xs):
     return '[' + ', '.join(lean_str(x) for x in xs) + ']'
 
 
+def _assigned_values(fn, name):
+    """ every value ever bound to the local `name` in `fn` (plain, augmented and annotated assignments; a tuple target or a
+        loop/with binding of the name is unsupported) """
+    out = []
+    for n in ast.walk(fn):
+        if isinstance(n, ast.Assign):
+            for t in n.targets:
+                if isinstance(t, ast.Name) and t.id == name:
+                    out.append(n.value)
+                elif any(isinstance(x, ast.Name) and x.id == name for x in ast.walk(t)) and not isinstance(t, (ast.Subscript, ast.Attribute)):
+                    raise ExtractError(f'{fn.name}: `{name}` is bound through a compound target')
+        elif isinstance(n, ast.AugAssign) and isinstance(n.target, ast.Name) and n.target.id == name:
+            out.append(ast.BinOp(left=ast.Name(name, ast.Load()), op=n.op, right=n.value))
+        elif isinstance(n, ast.AnnAssign) and isinstance(n.target, ast.Name) and n.target.id == name and n.value is not None:
+            out.append(n.value)
+        elif isinstance(n, (ast.For, ast.comprehension)) and any(isinstance(x, ast.Name) and x.id == name for x in ast.walk(n.target)):
+            raise ExtractError(f'{fn.name}: `{name}` is bound by a loop')
+        elif isinstance(n, ast.NamedExpr) and n.target.id == name:
+            out.append(n.value)
+    return out
+
+
+class _Rename(ast.NodeTransformer):
+    def __init__(self, old, new): self.old = old; self.new = new
+    def visit_Name(self, node):
+        return ast.Name(self.new, node.ctx) if node.id == self.old else node
+
+
+def _dur_forms(fn, clsname):
+    """ How the `dur` column handed to `self.append` in `add_pairs` is obtained from the class's duration parameter.  Every
+        value the column expression can take is classified: `plain(<par>)` = the parameter repeated for every new edge,
+        `drawn(<par>)` = one draw of the parameter per new edge, anything else is reported verbatim (`other:…`). """
+    import re
+    calls = [n for n in ast.walk(fn) if isinstance(n, ast.Call) and unparse(n.func) == 'self.append']
+    if len(calls) != 1: raise ExtractError(f'{clsname}.add_pairs: exactly one self.append expected')
+    kw = {k.arg: k.value for k in calls[0].keywords}
+    if calls[0].args or None in kw or 'dur' not in kw or 'p1' not in kw:
+        raise ExtractError(f'{clsname}.add_pairs: self.append(p1=…, dur=…) with keywords expected')
+    env = _locals(fn)
+    p1name = kw['p1'].id if isinstance(kw['p1'], ast.Name) else None
+    if isinstance(kw['dur'], ast.Name):
+        dname = kw['dur'].id
+        vals = _assigned_values(fn, dname)
+        if not vals: raise ExtractError(f'{clsname}.add_pairs: `{dname}` is never assigned')
+    else:
+        dname = None; vals = [kw['dur']]
+    env = {k: v for k, v in env.items() if k not in (dname, p1name)}
+    forms = set()
+    for v in vals:
+        v = copy.deepcopy(v)
+        if p1name: v = _Rename(p1name, 'P1').visit(v)
+        e = _canon(v, env)
+        if not p1name: e = e.replace(_canon(kw['p1'], env), 'P1')
+        m = (re.fullmatch(r'np\.ones\(len\(P1\)\)\*pars\.(\w+)', e) or re.fullmatch(r'pars\.(\w+)\*np\.ones\(len\(P1\)\)', e)
+             or re.fullmatch(r'np\.full\(len\(P1\),(?:fill_value=)?pars\.(\w+)\)', e))
+        if m: forms.add(f'plain({m.group(1)})'); continue
+        m = re.fullmatch(r'pars\.(\w+)\.rvs\((?:P1|len\(P1\))\)', e)
+        if m: forms.add(f'drawn({m.group(1)})'); continue
+        forms.add('other:' + e[:80])
+    return sorted(forms)
+
+
+def _mat_add_forms(fn):
+    """ MaternalNet.add_pairs(mother_inds, unborn_inds, dur, start): which columns the call appends """
+    import re
+    calls = [n for n in ast.walk(fn) if isinstance(n, ast.Call) and unparse(n.func) == 'self.append']
+    if len(calls) != 1: raise ExtractError('MaternalNet.add_pairs: exactly one self.append expected')
+    kw = {k.arg: k.value for k in calls[0].keywords}
+    args = [a.arg for a in fn.args.args]
+    out = []
+    for col in ('dur', 'start', 'end'):
+        if col not in kw or not isinstance(kw[col], ast.Name): raise ExtractError(f'MaternalNet.add_pairs: append({col}=<name>) expected')
+        nm = kw[col].id
+        vals = [_canon(v, {}) for v in _assigned_values(fn, nm)]
+        forms = []
+        if nm in args: forms.append(f'arg({nm})')
+        for e in vals:
+            if re.fullmatch(r'np\.ones_like\(dur\)\*ti|ti\*np\.ones_like\(dur\)|np\.full_like\(dur,ti\)|np\.full\(len\(dur\),ti\)', e): forms.append('ti')
+            elif re.fullmatch(r'start\+(?:sc\.promotetoarray\(dur\)|np\.asarray\(dur\)|np\.array\(dur\)|dur)|(?:sc\.promotetoarray\(dur\)|dur)\+start', e): forms.append('start+dur')
+            else: forms.append('other:' + e[:80])
+        out.append(f'{col}=' + '|'.join(sorted(forms)))
+    return out
+
+
 @generator('NetworkFacts', [REL, 'starsim/people.py'])
 def gen(src):
     facts = {}
@@ -194,6 +278,11 @@ def gen(src):
     txt = unparse(fn).replace(' ', '')
     facts['remove_dead_networks'] = 'fornetworkinself.sim.networks.values():' in txt and 'network.remove_uids(uids)' in txt
     facts['remove_dead_uids'] = _canon([n for n in ast.walk(fn) if isinstance(n, ast.Assign) and unparse(n.targets[0]) == 'uids'][0].value, {})
+    # stated durations: the `dur` column of every add_pairs is the duration parameter itself (repeated or drawn per edge)
+    facts['dur_forms'] = [[cls, _dur_forms(src.func(REL, 'add_pairs', cls), cls)]
+                          for cls in ('RandomNet', 'ErdosRenyiNet', 'MFNet', 'MSMNet', 'EmbeddingNet')]
+    facts['mat_add_forms'] = _mat_add_forms(src.func(REL, 'add_pairs', 'MaternalNet'))
+    dur_forms_lean = '[' + ', '.join(f'({lean_str(c)}, {_lst(f)})' for c, f in facts['dur_forms']) + ']'
     body = f'''namespace StarsimModel.Gen
 /-- `DynamicNetwork.end_pairs`: sorted conjuncts of the keep-mask -/
 def endPairsKeep : List String := {_lst(facts['end_pairs_keep'])}
@@ -221,6 +310,11 @@ def randomPlainCountsAllPeople : Bool := {'true' if facts['random_plain_counts']
 /-- `People.remove_dead` tells every network to drop the dead agents -/
 def removeDeadTellsNetworks : Bool := {'true' if facts['remove_dead_networks'] else 'false'}
 def removeDeadUids : String := {lean_str(facts['remove_dead_uids'])}
+/-- per class: every form the `dur` column handed to `append` in `add_pairs` can take (`plain(p)`: the parameter `p` repeated
+    per new edge, `drawn(p)`: one draw of `p` per new edge, anything else verbatim) -/
+def durForms : List (String × List String) := {dur_forms_lean}
+/-- `MaternalNet.add_pairs`: the `dur`, `start` and `end` columns it appends -/
+def matAddForms : List String := {_lst(facts['mat_add_forms'])}
 end StarsimModel.Gen
 '''
     return body, facts
